@@ -326,6 +326,30 @@ fn oracle_combo<C: RangeCombo>(rng: &mut Rng, w: u32, s: u32, bps: &[(u32, Vec<u
             if step == n {
                 break;
             }
+            // --- C09: an out-of-support symbol (first index past the table, or a huge value) is
+            // rejected and leaves the raw parts of the encoder untouched
+            if rng.chance(1, 6) {
+                let (b, p, cdf) = rng.pick(&pool).clone();
+                let sym = match rng.next() % 4 {
+                    0 => cdf.len() - 1,
+                    1 => cdf.len() - 1 + 0x1_0000_0000usize,
+                    2 => usize::MAX - (rng.next() % 3) as usize,
+                    _ => cdf.len() + (rng.next() % 0x1_0001) as usize,
+                };
+                let before = show_enc::<C>(&coder);
+                let o = guarded(|| C::enc_sym(&mut coder, b, p, &cdf, sym).unwrap());
+                rep.eval("C09");
+                rep.eval("C20");
+                desc.push_str(&format!(" | encnone {:x} {:x}", b, p));
+                if inv {
+                    rep.count("C09.rejected_while_inverted");
+                }
+                if o != Ok("impossible".to_string()) || show_enc::<C>(&coder) != before {
+                    rep.fail("C09", format!("{} | raw => out-of-support symbol {:x}: result {:?}, encoder before {} after {}", desc, sym, o, before, show_enc::<C>(&coder)));
+                    broken = true;
+                    break;
+                }
+            }
             // --- encode the next symbol on both
             let (b, p) = fixed_bp.unwrap_or_else(|| pick_bp(rng, bps));
             let (b, p, mode) = if hunt && step + 2 >= n {
@@ -531,6 +555,7 @@ fn oracle_combo<C: RangeCombo>(rng: &mut Rng, w: u32, s: u32, bps: &[(u32, Vec<u
                 let (b, p, cdf) = if rng.chance(1, 2) { (b, p, gen_cdf(rng, p)) } else { rng.pick(&pool).clone() };
                 d10.push_str(&format!(" | dec {:x} {:x} {}", b, p, show_list(cdf.clone())));
                 rep.eval("C10");
+                rep.eval("C20"); // a std UB precondition check would abort the process here
                 match guarded(|| C::dec(&mut d, b, p, &cdf).unwrap()) {
                     Ok(o) if o == "invalid_data" => {
                         rep.count("C10.invalid_data");
@@ -549,6 +574,65 @@ fn oracle_combo<C: RangeCombo>(rng: &mut Rng, w: u32, s: u32, bps: &[(u32, Vec<u
                 }
             }
             rep.sample("C10", || d10.clone());
+        }
+
+        // ---------------- C20: malformed campaign on raw parts ----------------
+        // Encoders assembled by `from_raw_parts` from any `RangeCoderState` the constructor
+        // accepts and any situation (also ones no history reaches), decoders assembled from raw
+        // parts: every call may return an error or panic, but must not trip a std
+        // unsafe-precondition check (which would abort this process) — in particular the two
+        // `into_nonzero_unchecked` sites of queue.rs.
+        {
+            let (_, p0) = pick_bp(rng, bps);
+            let init = gen_raw_enc_init(rng, w, s, p0);
+            let toks: Vec<&str> = init.split(' ').collect();
+            let (lo, r, n, f) = (parse_hex(toks[2]).unwrap(), parse_hex(toks[3]).unwrap(), parse_hex(toks[4]).unwrap(), parse_hex(toks[5]).unwrap());
+            if let Some(st) = mk_state::<C>(lo, r) {
+                let mut e: Enc<C> = RangeEncoder::from_raw_parts(words::<C::W>(&parse_list(toks[1]).unwrap()), st, mk_sit::<C>(n, f));
+                let d20 = format!("range {:x} {:x} | {}", w, s, init);
+                for _ in 0..(rng.next() % 6) {
+                    let (b, p) = pick_bp(rng, bps);
+                    let (cdf, sym) = steer::<C>(rng, &e, w, s, p, &pool, b);
+                    rep.eval("C20");
+                    match guarded(|| C::enc_sym(&mut e, b, p, &cdf, sym).unwrap()) {
+                        Ok(_) => {}
+                        Err(class) => {
+                            rep.count(&format!("C20.raw_encoder.{}", class));
+                            break;
+                        }
+                    }
+                    rep.eval("C20");
+                    if guarded(|| { let _ = e.get_compressed().len(); let _ = e.num_words(); let mut d = e.decoder(); let _ = C::dec(&mut d, b, p, &cdf); }).is_err() {
+                        rep.count("C20.raw_encoder.inspect_panic");
+                        break;
+                    }
+                }
+                rep.sample("C20", || d20.clone());
+            }
+            // raw decoder: point anywhere relative to [lower, lower + range)
+            let thr = pow2(s - w);
+            let m = mask(s);
+            let range = match rng.next() % 4 { 0 => thr, 1 => m, _ => rng.bits_biased(s).max(thr) };
+            let lower = rng.bits_biased(s);
+            let point = rng.bits_biased(s);
+            let data = gen_words(rng, w, 3);
+            if let Some(st) = mk_state::<C>(lower, range) {
+                let cursor = Cursor::new_at_pos(words::<C::W>(&data), (rng.next() % 4) as usize).unwrap();
+                if let Ok(mut d) = RangeDecoder::<C::W, C::S, _>::from_raw_parts(cursor, st, from_u128::<C::S>(point)) {
+                    for _ in 0..4 {
+                        let (b, p) = pick_bp(rng, bps);
+                        let cdf = gen_cdf(rng, p);
+                        rep.eval("C20");
+                        match guarded(|| C::dec(&mut d, b, p, &cdf).unwrap()) {
+                            Ok(_) => {}
+                            Err(class) => {
+                                rep.fail("C20", format!("rangedec {:x} {:x} | rawdec {} 0 {:x} {:x} {:x} | dec {:x} {:x} {} => {}", w, s, show_list(data.clone()), lower, range, point, b, p, show_list(cdf.clone()), class));
+                                break;
+                            }
+                        }
+                    }
+                }
+            }
         }
     }
 }
